@@ -290,7 +290,59 @@ def run_big_trees(seed, trials):
     return problems
 
 
+def run_handoffs():
+    """'... once a map is frozen (explicitly, or by being used as a window or handed to a bridge or peripheral) every attempt to add a
+    resource or window raises': each documented hand-off of a user's map, then add_resource / add_window on it"""
+    from amaranth_soc import csr, gpio
+    from amaranth_soc.memory import MemoryMap
+    from amaranth_soc.csr import action
+    from amaranth_soc.csr.wishbone import WishboneCSRBridge
+    from amaranth_soc.wishbone.sram import WishboneSRAM
+    from amaranth_soc import wishbone
+    R = _R()
+    problems = []
+
+    def regmap():
+        m = MemoryMap(addr_width=4, data_width=8)
+        m.add_resource(csr.Register(csr.Field(action.RW, 8), access="rw"), name="a", size=1)
+        m.add_resource(csr.Register(csr.Field(action.R, 12), access="r"), name="b", size=2)
+        return m
+
+    def must_be_frozen(m, how):
+        before = snapshot(m)
+        for what, call in (("add_resource", lambda: m.add_resource(R(), name="late_resource", size=1)),
+                           ("add_window", lambda: m.add_window(MemoryMap(addr_width=1, data_width=m.data_width), name="late_window"))):
+            try:
+                call()
+                problems.append((f"a map {how} still accepts {what}()",))
+            except ValueError:
+                pass
+            except Exception as ex_:
+                problems.append((f"a map {how}: {what}() raised", type(ex_).__name__))
+        if snapshot(m) != before:
+            problems.append((f"a map {how}: a refused call changed its reported contents",))
+    m = regmap(); csr.Bridge(m); must_be_frozen(m, "handed to csr.Bridge")
+    m = regmap(); m.freeze(); must_be_frozen(m, "frozen explicitly")
+    w = regmap(); MemoryMap(addr_width=6, data_width=8).add_window(w, name="w"); must_be_frozen(w, "used as a window")
+    b = csr.Interface(addr_width=4, data_width=8, path=("c",)); b.memory_map = regmap()
+    WishboneCSRBridge(b, data_width=32); must_be_frozen(b.memory_map, "of a CSR bus handed to WishboneCSRBridge")
+    d = csr.Decoder(addr_width=6, data_width=8); sb = csr.Interface(addr_width=4, data_width=8, path=("s",)); sb.memory_map = regmap()
+    d.add(sb, name="sub"); must_be_frozen(sb.memory_map, "of a subordinate added to csr.Decoder")
+    wd = wishbone.Decoder(addr_width=6, data_width=8); ws = wishbone.Interface(addr_width=3, data_width=8, path=("s",))
+    ws.memory_map = MemoryMap(addr_width=3, data_width=8); wd.add(ws, name="sub"); must_be_frozen(ws.memory_map, "of a subordinate added to wishbone.Decoder")
+    must_be_frozen(gpio.Peripheral(pin_count=2, addr_width=4, data_width=8).bus.memory_map, "of gpio.Peripheral")
+    must_be_frozen(WishboneSRAM(size=16, data_width=32, granularity=8).wb_bus.memory_map, "of WishboneSRAM")
+    bld = csr.Builder(addr_width=4, data_width=8); bld.add("r", csr.Register(csr.Field(action.RW, 8), access="rw"))
+    must_be_frozen(bld.as_memory_map(), "returned by csr.Builder.as_memory_map()")
+    return problems
+
+
 def check_config(ctx, cfg):
+    if cfg["kind"] == "history" and cfg["seed"] % 1000 == 0:
+        hp = run_handoffs()
+        ctx.results.append({"name": f"frozen_by_handoff@{ctx.key}", "clause": "frozen_by_handoff", "status": "discharged" if not hp else "failed", "time": 0.0,
+                            "replay": {"confirmed": True, "how": "native: the hand-off, then add_resource / add_window on the real map", "detail": str(hp[:4])},
+                            "cfg": cfg, "known_key": "frozen_by_handoff", "solver": "native evaluation"})
     if cfg["kind"] == "tree":
         extra = run_big_trees(cfg["seed"], max(3, cfg["trials"] // 20))
     else:
